@@ -156,6 +156,27 @@ class SolveSeam:
                         raise e
                 return orig_at(timings)
             obj._analyze_timings = _analyze_timings
+        # site 'anderson': the Anderson mixing step of an iteration fails (between the update of the iterate and the
+        # update of the distance) - an inner step in the sense of the statement
+        if getattr(obj, "anderson", None) is not None:
+            real_aa = obj.anderson
+            self.anderson_calls = 0
+
+            class _AA:
+                def __getattr__(self_, n):
+                    return getattr(real_aa, n)
+
+                def __call__(self_, *a, **k):
+                    f = seam.fault
+                    if f and f["site"] == "anderson" and not seam.fired:
+                        seam.anderson_calls += 1
+                        if seam.anderson_calls == f["occurrence"]:
+                            seam.fired.append(("anderson", f["occurrence"], f["exc"]))
+                            e = make_exc(f["exc"])
+                            e._dsim_injected = True
+                            raise e
+                    return real_aa(*a, **k)
+            obj.anderson = _AA()
         orig_solve = obj._solve
         self.captured = None
 
@@ -173,6 +194,7 @@ class SolveSeam:
         self.max_b = 0.0
         self.setups = self.reused = 0
         self.bookkeeping_calls = 0
+        self.anderson_calls = 0
         self.amplitude = 0.0
         self.captured = None
 
@@ -708,6 +730,9 @@ class C04Engine(Engine):
             for k in range(1, n):
                 for si, site in enumerate(SITES):
                     plan.append({"site": site, "occurrence": k, "exc": EXC_TYPES[(seed + 3 * k + si) % len(EXC_TYPES)]})
+                if cfg.get("aa_depth"):
+                    # the acceleration step of loop iteration k-1 fails (after the iterate was updated): an inner step too
+                    plan.append({"site": "anderson", "occurrence": k, "exc": EXC_TYPES[(seed + 3 * k + 5) % len(EXC_TYPES)]})
             if n >= 1:
                 plan.append({"site": "entry", "occurrence": 0, "exc": EXC_TYPES[seed % len(EXC_TYPES)]})
         else:
@@ -724,7 +749,7 @@ class C04Engine(Engine):
             out.counters[f"fault:solve-raise-{f['site']}"] += 1
             out.counters[f"fault:exc-{f['exc']}"] += 1
             if rr.ret is None:
-                in_loop = 1 <= f["occurrence"] <= (n - 1 if cfg["method"] == "newton" else n - 2)
+                in_loop = f["site"] == "anderson" or 1 <= f["occurrence"] <= (n - 1 if cfg["method"] == "newton" else n - 2)
                 if f["site"] == "bookkeeping":
                     # the bookkeeping routine is also called once after the loop, outside the handler: an escape from
                     # there is not an inner step failing; nothing is claimed
@@ -753,8 +778,8 @@ class C04Engine(Engine):
                                                  f["site"], f["occurrence"], f["exc"]))))
             if not obs["finite"]:
                 continue
-            if f["site"] == "bookkeeping":
-                # the failing iteration had already produced its iterate and distance: M, D, A, S apply, V has no reference
+            if f["site"] in ("bookkeeping", "anderson"):
+                # the failing iteration had already produced its iterate (and distance): M, D, A, S apply, V has no reference
                 out.counters["probe:late-failure-result-checked"] += 1
                 continue
             # ---- V: last valid iterate = fault-free run truncated before the failed iteration
@@ -810,9 +835,9 @@ class C04Engine(Engine):
             n = cfg["num_iter"] + 2
             seed = case.get("seed", 0)
             for k in range(0, n):
-                for si, site in enumerate(SITES):
+                for si, site in enumerate(SITES + (["anderson"] if cfg.get("aa_depth") else [])):
                     c = copy.deepcopy(case)
-                    c["faults"] = [{"site": site, "occurrence": k, "exc": EXC_TYPES[(seed + 3 * k + si) % len(EXC_TYPES)]}]
+                    c["faults"] = [{"site": site, "occurrence": k, "exc": EXC_TYPES[(seed + 3 * k + (si if site != "anderson" else 5)) % len(EXC_TYPES)]}]
                     c["forms"] = False
                     yield c
             c = copy.deepcopy(case)
